@@ -33,7 +33,16 @@ import os as _os
 if not _os.environ.get("PYVC_TIMEOUT_MS"):
     from pyvc import solve as _solve
     _solve.QUICK_TIMEOUT_MS = 4000
-EXECUTOR_KW = {"sharepoint2text/parsing/extractors/ms_legacy/rtf_extractor.py::_RtfParser._strip_rtf_full_with_pages": {"unknown_items_are_str": True, "feas_timeout_ms": 30}}
+class _ExecutorKw(dict):
+    """Executor options by target; the RTF walker (whatever it is called) runs with cheap feasibility checks."""
+
+    def get(self, target, default=None):
+        if target and "/rtf_extractor.py::" in target:
+            return {"unknown_items_are_str": True, "feas_timeout_ms": 10}
+        return default
+
+
+EXECUTOR_KW = _ExecutorKw()
 
 
 def _sl(st, v):
@@ -47,25 +56,99 @@ def _sl(st, v):
     raise X.Unsupported(f"not a list of str: {o.kind}")
 
 
+def _is_strlist(st, v):
+    if not isinstance(v, VRef):
+        return False
+    o = st.heap.get(v.ref)
+    return o is not None and (o.kind == "slist" or (o.kind == "list" and o.data is not None and all(isinstance(x, VStr) for x in o.data)))
+
+
 def acc(lc, hint=None, pick="inner"):
-    """The text accumulator of the loop: the parameter / local named `hint` if it is a str list, else the unique
-    local (not a parameter of the contract) that holds a list of str (the most recently created one when there
-    are several) -- so renaming the accumulator re-verifies."""
-    def is_strlist(v):
-        if not isinstance(v, VRef):
-            return False
-        o = lc.st.heap.get(v.ref)
-        return o is not None and (o.kind == "slist" or (o.kind == "list" and o.data is not None and all(isinstance(x, VStr) for x in o.data)))
-    if hint:
-        v = lc.st.lookup(hint)
-        if v is not None and is_strlist(v):
-            return v
-    params = {p[0] for p in lc.ex.contract.params}
-    cands = {k: v for k, v in lc.st.frame.env.items() if k not in params and is_strlist(v)}
-    if not cands:
-        raise X.Unsupported("text accumulator not identified")
-    # several: the most recently created list is the innermost accumulator, the oldest the outermost
-    return (max if pick == "inner" else min)(cands.values(), key=lambda v: v.ref)
+    """The text accumulator of a loop, identified by role, not by name: a str list that exists when the loop is entered
+    and is visible from the innermost frame that sees one (a helper executed in place sees it through its own parameter);
+    among several, the most recently created one (lists created inside the loop body are not candidates)."""
+    st = lc.st
+    before = lc.entry.heap if getattr(lc, "entry", None) is not None else st.heap
+    for fr in reversed(st.frames):
+        cands = {v.ref: v for v in fr.env.values() if _is_strlist(st, v) and v.ref in before}
+        if cands:
+            return cands[(max if pick == "inner" else min)(cands)]
+    raise X.Unsupported("text accumulator not identified")
+
+
+def grown(lc):
+    """((n, cat, lead) at loop entry, (n, cat, lead) now) of the loop's accumulator: invariants are stated as what the loop
+    has ADDED, so statements before the loop (and where the list comes from) do not matter."""
+    a = acc(lc)
+    return _sl(lc.entry, a), _sl(lc.st, a)
+
+
+def find_fn(rel, name, mentions=(), nparams=None, calls=(), exclude=()):
+    """Qualified name of the function that plays the role `name` had when the contract was written: `name` itself when it
+    exists; otherwise the unique function of the module with the same arity that mentions the given names / string
+    constants and calls the given functions (a renamed helper).  Not found or ambiguous -> `name` (target missing: undecided)."""
+    import ast
+    from pyvc import loader
+    try:
+        mod = loader.module(rel)
+    except OSError:
+        return name
+    if name in mod.functions:
+        return name
+    prefix = name.rsplit(".", 1)[0] + "." if "." in name else ""
+    cands = []
+    for q, fn in mod.functions.items():
+        if "<locals>" in q or (q.rsplit(".", 1)[0] + "." if "." in q else "") != prefix or q in exclude:
+            continue
+        a = fn.args
+        if nparams is not None and len(a.posonlyargs + a.args + a.kwonlyargs) != nparams:
+            continue
+        names = {x.id for x in ast.walk(fn) if isinstance(x, ast.Name)} | {x.attr for x in ast.walk(fn) if isinstance(x, ast.Attribute)} \
+            | {x.value for x in ast.walk(fn) if isinstance(x, ast.Constant) and isinstance(x.value, str)}
+        called = {x.func.id for x in ast.walk(fn) if isinstance(x, ast.Call) and isinstance(x.func, ast.Name)} \
+            | {x.func.attr for x in ast.walk(fn) if isinstance(x, ast.Call) and isinstance(x.func, ast.Attribute)}
+        if all(m in names for m in mentions) and all(c.rsplit(".", 1)[-1] in called for c in calls):
+            cands.append(q)
+    return cands[0] if len(cands) == 1 else name
+
+
+def under(rel, role, actual, **kw):
+    """FnContract on the function `actual` that keeps its obligation ids under the role name (ids survive a rename)."""
+    c = FnContract(target=f"{rel}::{actual}", **kw)
+    if actual != role:
+        c.oid_qual = role
+    return c
+
+
+class Sig:
+    """Parameter names of a real function, by position: contracts name *roles*; the actual names are read from the AST on
+    every run, so renaming a parameter does not detach the contract."""
+
+    def __init__(self, rel, qual, roles, drop_self=False):
+        from pyvc import loader
+        self.roles = list(roles)
+        self.name = {r: r for r in roles}
+        self.ok = False
+        try:
+            fn = loader.module(rel).functions.get(qual)
+        except OSError:
+            fn = None
+        if fn is not None:
+            a = fn.args
+            names = [x.arg for x in a.posonlyargs + a.args + a.kwonlyargs]
+            if len(names) == len(roles):
+                self.name = dict(zip(roles, names))
+                self.ok = True
+
+    def params(self, makers):
+        return [(self.name[r], makers[r]) for r in self.roles]
+
+    def __call__(self, ctx, role):
+        """Value of the role in a CallCtx (c.args) or a LoopCtx (current local)."""
+        n = self.name[role]
+        if hasattr(ctx, "args"):
+            return ctx.args[n]
+        return ctx[n]
 
 
 def cat_of(st, v):
@@ -133,44 +216,158 @@ define(ODF_KIDS, _odf_kids_def)
 define(ODF_ITEM, _odf_item_def, aux=True)
 
 ODF_KW = ["text_space_tag", "text_tab_tag", "text_line_break_tag", "attr_text_c"]
+ODF_ROLES = ODF_KW + ["skip_tags"]
 
 
-def odf_cfg(args):
-    sk = args["skip_tags"]
-    if isinstance(sk, VNoneT):
-        skt = EMPTYSET
-    elif isinstance(sk, X.VSetC):
-        skt = X.const_strset(sk.items) if sk.items else EMPTYSET
-    else:
-        skt = sk.t
-    return tuple(args[k].t for k in ODF_KW) + (skt,)
+def _set_term(v):
+    if isinstance(v, VNoneT):
+        return EMPTYSET
+    if isinstance(v, X.VSetC):
+        return X.const_strset(v.items) if v.items else EMPTYSET
+    return v.t
 
 
-def odf_contracts():
-    def inv(lc):
-        e = lc["element"].t
-        cfg = odf_cfg({k: lc[k] for k in ODF_KW + ["skip_tags"]})
-        old = z3.String("parts.cat")            # value at function entry (p_strlist names it)
-        return Conj([("parts==old+text+items-of-processed-children",
-                      cat_of(lc.st, acc(lc, "parts")) == cc(old, TEXT(e), ODF_KIDS(e, lc.i, *cfg)))])
+def odf_contracts(reg):
+    """`element_text` is the interface (its keyword names are what the four ODF extractors use).  The recursive helper it
+    delegates to is found by following the call; HOW the five configuration values travel (five keywords, a tuple-like
+    object, another order, other names) is read off that call: each component of the helper's arguments that carries one of
+    element_text's parameters gets that parameter's role in the specification."""
+    import ast
+    from pyvc import loader, verify
+    from pyvc.contracts import Registry
+    from pyvc.exctypes import Universe
+    mod = loader.module(SHARED)
+    et = mod.functions.get("element_text")
+    sig = Sig(SHARED, "element_text", ["element"] + ODF_ROLES)
 
-    append = FnContract(
-        target=f"{SHARED}::_append_element_text",
-        params=[("element", p_elem()), ("parts", p_strlist())] + [(k, p_str()) for k in ODF_KW] + [("skip_tags", p_strset())],
-        ensures=[("parts==old(parts)+odf_text(element)",
-                  lambda c: cat_of(c.st, c.args["parts"]) == cc(cat_of(c.entry, c.args["parts"]), ODF_TEXT(c.args["element"].t, *odf_cfg(c.args))))],
-        modifies=("parts",),
-        loops={0: LoopSpec(inv=inv, label="children")},
-        note="modular recursion through this contract; loop invariant over the processed prefix of a child list of symbolic length",
-    )
+    def et_cfg(c):
+        return tuple(sig(c, k).t for k in ODF_KW) + (_set_term(sig(c, "skip_tags")),)
+
     etext = FnContract(
         target=f"{SHARED}::element_text",
-        params=[("element", p_elem())] + [(k, p_str()) for k in ODF_KW] +
-               [("skip_tags", Maker(lambda ex, st, name: [(None, NONE)] + p_strset().make(ex, st, name), desc="Optional[set[str]]",
-                                    default=lambda ex, st: NONE))],
-        returns=lambda c: VStr(ODF_TEXT(c.args["element"].t, *odf_cfg(c.args))),
+        params=sig.params(dict({"element": p_elem(), "skip_tags": Maker(lambda ex, st, name: [(None, NONE)] + p_strset().make(ex, st, name),
+                                                                        desc="Optional[set[str]]", default=lambda ex, st: NONE)},
+                               **{k: p_str() for k in ODF_KW})),
+        returns=lambda c: VStr(ODF_TEXT(sig(c, "element").t, *et_cfg(c))),
         note="skip_tags None / empty == no skipped tags",
     )
+    if et is None:
+        return [etext]
+    callees = [n.func.id for n in ast.walk(et) if isinstance(n, ast.Call) and isinstance(n.func, ast.Name)
+               and n.func.id in mod.functions and n.func.id != "element_text"]
+    callees = [q for q in dict.fromkeys(callees) if any(isinstance(n, ast.Call) and isinstance(n.func, ast.Name) and n.func.id == q
+                                                        for n in ast.walk(mod.functions[q]))]          # the recursive walk
+    if len(callees) != 1:
+        return [etext]          # walk written inside element_text itself (or not recognisable): verified as one function / undecided
+    helper = callees[0]
+    hf = mod.functions[helper]
+    hp = [x.arg for x in hf.args.posonlyargs + hf.args.args + hf.args.kwonlyargs]
+
+    # ---- read the argument layout off the call in element_text (symbolic execution with a recording stand-in) ----
+    seen = []
+
+    def record(c):
+        seen.append((dict(c.args), c.st))
+        return z3.BoolVal(True)
+    reg0 = Registry()
+    X.install(reg0)
+    reg0.add(FnContract(target=f"{SHARED}::{helper}", params=[(n, Maker(lambda ex, st, nm: VUnk(nm), desc="any")) for n in hp], requires=record, assumed=True))
+    try:
+        ex0 = EXECUTOR(mod, reg0, Universe(loader.REPO))
+        ex0.contract = etext
+        ex0.oid_prefix = "C02/probe"
+        verify.generate(ex0, etext, mod, et)
+    except Exception:  # noqa  (layout not readable: the helper stays without contract -> undecided, never a wrong claim)
+        return [etext]
+    role_of = {z3.String(k).get_id(): k for k in ODF_KW}
+    layout = {}          # helper parameter -> "element" | "acc" | ("val", role) | ("obj", cls, {field: role})
+
+    def role(v):
+        if isinstance(v, VStr) and v.t.get_id() in role_of:
+            return role_of[v.t.get_id()]
+        if isinstance(v, (VExt, X.VSetC)) and (isinstance(v, X.VSetC) or v.sort == "StrSet"):
+            return "skip_tags"
+        return None
+    for args, st0 in seen[-1:]:
+        for n in hp:
+            v = args.get(n)
+            if isinstance(v, VExt) and v.sort == "Elem":
+                layout[n] = "element"
+            elif _is_strlist(st0, v):
+                layout[n] = "acc"
+            elif isinstance(v, VTuple):
+                layout[n] = ("tuple", [role(x) for x in v.items])
+            elif isinstance(v, VRef) and st0.obj(v.ref).kind == "obj":
+                o = st0.obj(v.ref)
+                layout[n] = ("obj", o.cls, {f: role(x) for f, x in o.data.items()})
+            else:
+                layout[n] = ("val", role(v))
+    roles_found = [l[1] for l in layout.values() if isinstance(l, tuple) and l[0] == "val"] + \
+                  [r for l in layout.values() if isinstance(l, tuple) and l[0] == "tuple" for r in l[1]] + \
+                  [r for l in layout.values() if isinstance(l, tuple) and l[0] == "obj" for r in l[2].values()]
+    if sorted(r for r in roles_found if r) != sorted(ODF_ROLES) or list(layout.values()).count("element") != 1 or list(layout.values()).count("acc") > 1:
+        return [etext]
+    e_name = next(n for n, l in layout.items() if l == "element")
+    a_name = next((n for n, l in layout.items() if l == "acc"), None)          # None: the walk returns its text instead of appending
+
+    def cfg(get, st):
+        """The five configuration terms, in role order, from the helper's own arguments / locals."""
+        found = {}
+        for n, l in layout.items():
+            if isinstance(l, tuple) and l[0] == "val" and l[1]:
+                found[l[1]] = get(n)
+            elif isinstance(l, tuple) and l[0] == "tuple":
+                for r, x in zip(l[1], get(n).items):
+                    if r:
+                        found[r] = x
+            elif isinstance(l, tuple) and l[0] == "obj":
+                d = st.obj(get(n).ref).data
+                for f, r in l[2].items():
+                    if r:
+                        found[r] = d[f]
+        return tuple(found[k].t for k in ODF_KW) + (_set_term(found["skip_tags"]),)
+
+    def maker(l):
+        if l == "element":
+            return p_elem()
+        if l == "acc":
+            return p_strlist()
+        if l[0] == "tuple":
+            kinds = list(l[1])
+            return Maker(lambda ex, st, nm: VTuple([(VExt("StrSet", z3.Const(f"{nm}.{i}", STRSET)) if r == "skip_tags" else VStr(z3.String(f"{nm}.{i}")))
+                                                    for i, r in enumerate(kinds)]), desc="tuple of configuration values")
+        if l[0] == "val":
+            return p_strset() if l[1] == "skip_tags" else (p_str() if l[1] else Maker(lambda ex, st, nm: VUnk(nm), desc="any"))
+        return p_obj(l[1], {f: (p_strset() if r == "skip_tags" else p_str()) for f, r in l[2].items()})
+
+    def inv(lc):
+        e = lc.seq.t
+        (_n0, c0, _l0), (_n1, c1, _l1) = grown(lc)
+        return Conj([("parts==old+text+items-of-processed-children",
+                      c1 == cc(c0, ODF_KIDS(e, lc.i, *cfg(lambda n: top(lc, n), lc.st))))])
+
+    if a_name is None:
+        append = under(
+            SHARED, "_append_element_text", helper,
+            params=[(n, maker(layout[n])) for n in hp],
+            result_maker=lambda ex, st, ctx: VStr(z3.String(fresh_name("element_text"))),
+            ensures=[need_loops("children"), ("parts==old(parts)+odf_text(element)",        # same clause, functional form: result == odf_text(element)
+                                              X.robust(lambda c: c.result.t == ODF_TEXT(c.args[e_name].t, *cfg(lambda n: c.args[n], c.entry))))],
+            note="functional form of the walk (returns the text); modular recursion through this contract",
+        )
+    else:
+        append = under(
+            SHARED, "_append_element_text", helper,
+            params=[(n, maker(layout[n])) for n in hp],
+            ensures=[need_loops("children"), ("parts==old(parts)+odf_text(element)",
+                      X.robust(lambda c: cat_of(c.st, c.args[a_name]) == cc(cat_of(c.entry, c.args[a_name]),
+                                                                            ODF_TEXT(c.args[e_name].t, *cfg(lambda n: c.args[n], c.entry))))),],
+            modifies=(a_name,),
+            note="modular recursion through this contract; loop invariant over the processed prefix of a child list of symbolic length",
+        )
+    append.loop_match = lambda ex, st, node, it: (matched(ex, LoopSpec(inv=inv, label="children"))
+                                                  if isinstance(it, VExt) and it.sort == "Elem" and st.lookup(e_name) is not None
+                                                  and it.t.eq(st.lookup(e_name).t) else None)
     return [append, etext]
 
 
@@ -322,58 +519,113 @@ BODY_CHILD_CASES = [
 ]
 
 
-def docx_contracts():
-    OLD = z3.String("parts.cat")
+def matched(ex, spec):
+    """Record that a loop specification was attached (see need_loops)."""
+    if not hasattr(ex, "matched_labels"):
+        ex.matched_labels = set()
+    ex.matched_labels.add(spec.label)
+    return spec
 
-    def kids_inv(var):
-        def inv(lc):
-            e, inc = (lc.seq.t if var is None else lc[var].t), lc["include_formulas"].t
-            cur = cat_of(lc.st, acc(lc, "parts"))
-            return Conj([(nm, h(cur) == cc(h(OLD), D.KIDS(e, lc.i, inc))) for nm, D, h in DX_IMAGES])
-        return inv
+
+def need_loops(*labels):
+    """First postcondition of a contract whose obligations live in loop specifications found by role: when an expected
+    loop was not recognised in the (restructured) code, the function is OUT-OF-SUBSET (undecided) -- its obligations must
+    not silently disappear."""
+    def clause(c):
+        if getattr(c.ex, "contract", None) is not clause.owner or c.ex.inline_depth > 0 or getattr(c.ex, "in_apply", 0) > 0:
+            return z3.BoolVal(True)            # assumed at a call site: nothing to check there
+        missing = [l for l in labels if l not in getattr(c.ex, "matched_labels", set())]
+        if missing:
+            raise X.Unsupported("loop(s) not recognised: " + ", ".join(missing))
+        return z3.BoolVal(True)
+    clause.owner = None
+    clause.needs_owner = True
+    return ("loops-recognised", clause)
+
+
+def top(lc, name):
+    """Value of a parameter of the function under contract, read from its own frame (also from inside a helper executed in place)."""
+    v = lc.st.frames[0].env.get(name)
+    if v is None:
+        raise KeyError(name)
+    return v
+
+
+def elem_loop(it, v):
+    return isinstance(it, VExt) and it.sort == "Elem" and isinstance(v, VExt) and v.sort == "Elem" and it.t.eq(v.t)
+
+
+def docx_contracts():
+    PROC = find_fn(DOCX, "_process_text_element", mentions=["W_R", "MC_CHOICE"], nparams=3)
+    PARA = find_fn(DOCX, "_extract_paragraph_content", mentions=["join"], calls=[PROC], nparams=2)
+    TBL = find_fn(DOCX, "_extract_table_text", mentions=["W_TR", "W_TC"], nparams=2)
+    BODY = find_fn(DOCX, "_extract_full_text_from_body", mentions=["W_TBL"], calls=[TBL], nparams=2)
+    sp = Sig(DOCX, PROC, ["elem", "parts", "include_formulas"])
+    OLD = z3.String(f"{sp.name['parts']}.cat")
+
+    def kids_inv(lc):
+        e, inc = lc.seq.t, top(lc, sp.name["include_formulas"]).t
+        (_n0, c0, _l0), (_n1, cur, _l1) = grown(lc)
+        return Conj([(nm, h(cur) == cc(h(c0), D.KIDS(e, lc.i, inc))) for nm, D, h in DX_IMAGES])
 
     def run_inv(lc):
-        e, inc = lc["elem"].t, lc["include_formulas"].t
-        cur = cat_of(lc.st, acc(lc, "parts"))
+        e, inc = lc.seq.t, top(lc, sp.name["include_formulas"]).t
+        (_n0, c0, _l0), (_n1, cur, _l1) = grown(lc)
         last = TAG(CH(e, z3.simplify(lc.i - 1)))
-        return Conj([(f"{nm}[{cn}]", z3.Implies(g(last), h(cur) == cc(h(OLD), D.RUN(e, lc.i, inc))))
+        return Conj([(f"{nm}[{cn}]", z3.Implies(g(last), h(cur) == cc(h(c0), D.RUN(e, lc.i, inc))))
                      for nm, D, h in DX_IMAGES for cn, g in RUN_CHILD_CASES])
 
     def post(nm, D, h, guard):
         def f(c):
-            e, inc = c.args["elem"].t, c.args["include_formulas"].t
+            e, inc = sp(c, "elem").t, sp(c, "include_formulas").t
             return z3.Implies(guard(TAG(e)),
-                              h(cat_of(c.st, c.args["parts"])) == cc(h(cat_of(c.entry, c.args["parts"])), D.F(e, inc)))
-        return f
+                              h(cat_of(c.st, sp(c, "parts"))) == cc(h(cat_of(c.entry, sp(c, "parts"))), D.F(e, inc)))
+        return X.robust(f)
 
-    process = FnContract(
-        target=f"{DOCX}::_process_text_element",
-        params=[("elem", p_elem()), ("parts", p_strlist()), ("include_formulas", p_bool())],
-        ensures=[(f"{nm}(parts)==old+dx_{nm}(elem)[{cn}]", post(nm, D, h, g)) for nm, D, h in DX_IMAGES for cn, g in ELEM_CASES],
-        modifies=("parts",),
-        loops={0: LoopSpec(inv=kids_inv(None), label="choice-children"),
-               1: LoopSpec(inv=run_inv, label="run-children"),
-               2: LoopSpec(inv=kids_inv("elem"), label="children")},
+    process = under(
+        DOCX, "_process_text_element", PROC,
+        params=sp.params({"elem": p_elem(), "parts": p_strlist(), "include_formulas": p_bool()}),
+        ensures=[need_loops("choice-children", "run-children", "children")]
+                + [(f"{nm}(parts)==old+dx_{nm}(elem)[{cn}]", post(nm, D, h, g)) for nm, D, h in DX_IMAGES for cn, g in ELEM_CASES],
+        modifies=(sp.name["parts"],),
     )
+
+    def process_loops(ex, st, node, it):
+        """children of the element itself: the run-item fold when the element is a run, else the generic fold;
+        children of another element (the mc:Choice): the generic fold over that element."""
+        e = st.frames[0].env.get(sp.name["elem"])
+        if not (isinstance(it, VExt) and it.sort == "Elem"):
+            return None
+        if not elem_loop(it, e):
+            return matched(ex, LoopSpec(inv=kids_inv, label="choice-children"))
+        if not ex.feasible(st.pc, TAG(e.t) != W_R):
+            return matched(ex, LoopSpec(inv=run_inv, label="run-children"))
+        if not ex.feasible(st.pc, TAG(e.t) == W_R):
+            return matched(ex, LoopSpec(inv=kids_inv, label="children"))
+        return None
+    process.loop_match = process_loops
     # guards of ELEM_CASES are exhaustive: at call sites the postcondition is assumed unsplit
     process.compact_ensures = [(f"{nm}(parts)==old+dx_{nm}(elem)", post(nm, D, h, lambda t: z3.BoolVal(True))) for nm, D, h in DX_IMAGES]
     omml = FnContract(target=f"{OMML_PY}::omml_to_latex", params=[("elem", p_elem())], assumed=True,
                       returns=lambda c: VStr(OMML(c.args["elem"].t)), note="uninterpreted: C19 decides what the LaTeX is")
 
-    def par_inv(lc):
-        e, inc = lc["paragraph"].t, lc["include_formulas"].t
-        cur = cat_of(lc.st, acc(lc))
-        return Conj([(nm, h(cur) == D.KIDS(e, lc.i, inc)) for nm, D, h in DX_IMAGES])
+    sq_ = Sig(DOCX, PARA, ["paragraph", "include_formulas"])
 
-    para = FnContract(
-        target=f"{DOCX}::_extract_paragraph_content",
-        params=[("paragraph", p_elem()), ("include_formulas", p_bool())],
-        ensures=[(f"{nm}(result)==dx_{nm}_children(paragraph)",
-                  (lambda nm, D, h: lambda c: h(c.result.t) == D.all_kids(c.args["paragraph"].t, c.args["include_formulas"].t))(nm, D, h))
+    def par_inv(lc):
+        e, inc = lc.seq.t, top(lc, sq_.name["include_formulas"]).t
+        (_n0, c0, _l0), (_n1, cur, _l1) = grown(lc)
+        return Conj([(nm, h(cur) == cc(h(c0), D.KIDS(e, lc.i, inc))) for nm, D, h in DX_IMAGES])
+
+    para = under(
+        DOCX, "_extract_paragraph_content", PARA,
+        params=sq_.params({"paragraph": p_elem(), "include_formulas": p_bool()}),
+        ensures=[need_loops("children")] + [(f"{nm}(result)==dx_{nm}_children(paragraph)",
+                  (lambda nm, D, h: X.robust(lambda c: h(c.result.t) == D.all_kids(sq_(c, "paragraph").t, sq_(c, "include_formulas").t)))(nm, D, h))
                  for nm, D, h in DX_IMAGES],
         result_maker=lambda ex, st, ctx: VStr(z3.String(fresh_name("paragraph_text"))),
-        loops={0: LoopSpec(inv=par_inv, label="children")},
     )
+    para.loop_match = lambda ex, st, node, it: (matched(ex, LoopSpec(inv=par_inv, label="children"))
+                                                if elem_loop(it, st.frames[0].env.get(sq_.name["paragraph"])) else None)
     # ---- body level --------------------------------------------------------------------------
     def tbl_result(ex, st, ctx):
         n = z3.Int(fresh_name("table_texts.len"))
@@ -381,45 +633,49 @@ def docx_contracts():
         st.assume(X.slist_wf(n, cat, lead))
         return X.mk_slist(ex, st, n, cat, lead, fresh=True)
 
-    table = FnContract(
-        target=f"{DOCX}::_extract_table_text",
-        params=[("table", p_elem()), ("include_formulas", p_bool())],
+    st_ = Sig(DOCX, TBL, ["table", "include_formulas"])
+    table = under(
+        DOCX, "_extract_table_text", TBL,
+        params=st_.params({"table": p_elem(), "include_formulas": p_bool()}),
         assumed=True, result_maker=tbl_result,
-        ensures=[("nw", lambda c: NW(cat_of(c.st, c.result)) == TBLN(c.args["table"].t, c.args["include_formulas"].t)),
-                 ("sq", lambda c: lead_of(c.st, c.result) == TBLS(c.args["table"].t, c.args["include_formulas"].t)),
+        ensures=[("nw", lambda c: NW(cat_of(c.st, c.result)) == TBLN(st_(c, "table").t, st_(c, "include_formulas").t)),
+                 ("sq", lambda c: lead_of(c.st, c.result) == TBLS(st_(c, "table").t, st_(c, "include_formulas").t)),
                  ("pieces-not-blank", lambda c: (_sl(c.st, c.result)[0] == 0) == (NW(cat_of(c.st, c.result)) == lit("")))],
         note="callee contract used by the body walk; the function itself is checked exhaustively over small trees (BOUNDED, replay/C02.py)",
     )
+    sb = Sig(DOCX, BODY, ["body", "include_formulas"])
 
     def body_inv(lc):
-        e, inc = lc["body"].t, lc["include_formulas"].t
+        e, inc = lc.seq.t, top(lc, sb.name["include_formulas"]).t
         last = TAG(CH(e, z3.simplify(lc.i - 1)))
-        n, cat, _lead = _sl(lc.st, acc(lc))
-        goals = [("nw", NW(cat) == BODYN(e, lc.i, inc)),
-                 ("sq", lead_of(lc.st, acc(lc)) == BODYS(e, lc.i, inc)),
-                 ("pieces-not-blank", (n == 0) == (NW(cat) == lit("")))]
+        (n0, c0, l0), (n, cat, lead) = grown(lc)
+        goals = [("nw", NW(cat) == cc(NW(c0), BODYN(e, lc.i, inc))),
+                 ("sq", lead == cc(l0, BODYS(e, lc.i, inc))),
+                 ("pieces-not-blank", z3.Implies((n0 == 0) == (NW(c0) == lit("")), (n == 0) == (NW(cat) == lit(""))))]
         return Conj([(f"{nm}[{cn}]", z3.Implies(g(last), t)) for nm, t in goals for cn, g in BODY_CHILD_CASES])
 
     def body_post_nw(c):
-        if isinstance(c.args["body"], VNoneT):
+        if isinstance(sb(c, "body"), VNoneT):
             return c.result.t == lit("")
-        return NW(c.result.t) == BODYN(c.args["body"].t, NCH(c.args["body"].t), c.args["include_formulas"].t)
+        return NW(c.result.t) == BODYN(sb(c, "body").t, NCH(sb(c, "body").t), sb(c, "include_formulas").t)
 
     def body_post_sq(c):
-        if isinstance(c.args["body"], VNoneT):
+        if isinstance(sb(c, "body"), VNoneT):
             return c.result.t == lit("")
-        bs = BODYS(c.args["body"].t, NCH(c.args["body"].t), c.args["include_formulas"].t)
+        bs = BODYS(sb(c, "body").t, NCH(sb(c, "body").t), sb(c, "include_formulas").t)
         return z3.If(c.result.t == lit(""), bs == lit(""), cc(" ", SQ(c.result.t)) == bs)
 
-    body = FnContract(
-        target=f"{DOCX}::_extract_full_text_from_body",
-        params=[("body", p_opt(p_elem())), ("include_formulas", Maker(lambda ex, st, name: VBool(z3.Bool(name)), desc="bool", default=lambda ex, st: VBool(True)))],
-        ensures=[("nw(result)==nw-of-blocks-in-order", body_post_nw),
-                 ("sq(result)==blocks-separated-by-whitespace", body_post_sq),
-                 ("result-empty-iff-no-visible-text", lambda c: (c.result.t == lit("")) == (NW(c.result.t) == lit("")))],
+    body = under(
+        DOCX, "_extract_full_text_from_body", BODY,
+        params=sb.params({"body": Maker(lambda ex, st, name: p_elem().make(ex, st, name) + [(None, NONE)], desc="Optional[Element]"),
+                          "include_formulas": Maker(lambda ex, st, name: VBool(z3.Bool(name)), desc="bool", default=lambda ex, st: VBool(True))}),
+        ensures=[need_loops("blocks"), ("nw(result)==nw-of-blocks-in-order", X.robust(body_post_nw)),
+                 ("sq(result)==blocks-separated-by-whitespace", X.robust(body_post_sq)),
+                 ("result-empty-iff-no-visible-text", X.robust(lambda c: (c.result.t == lit("")) == (NW(c.result.t) == lit(""))))],
         result_maker=lambda ex, st, ctx: VStr(z3.String(fresh_name("body_text"))),
-        loops={0: LoopSpec(inv=body_inv, label="blocks")},
     )
+    body.loop_match = lambda ex, st, node, it: (matched(ex, LoopSpec(inv=body_inv, label="blocks"))
+                                                if elem_loop(it, st.frames[0].env.get(sb.name["body"])) else None)
     return [process, omml, para, table, body]
 
 
@@ -507,42 +763,44 @@ def dt_contracts(reg):
         out.append(FnContract(
             target=f"{DT}::{cls}.text_combined",
             params=[("self", p_obj(cls, {"title": title, "body_text": p_strlist(), "other_text": p_strlist(), "notes": p_strlist()}))],
-            ensures=[("nw(result)==title+body+other", nw_post), ("sq(result)==title,body,other-separated-by-whitespace", sq_post)],
+            ensures=[("nw(result)==title+body+other", X.robust(nw_post)), ("sq(result)==title,body,other-separated-by-whitespace", X.robust(sq_post))],
             note="speaker notes (self.notes) do not occur in the specified text, hence never in the result",
         ))
 
     # ---- PptxSlide.get_text ------------------------------------------------------------------
-    def base(c_or_lc, st):
-        return st.obj(c_or_lc["self"].ref).data["base_text"].t
+    sg = Sig(DT, "PptxSlide.get_text", ["self", "include_image_captions"])
+
+    def base(c):
+        return c.entry.obj(sg(c, "self").ref).data["base_text"].t
 
     def f_inv(lc):
-        b = base(lc, lc.st)
-        return Conj([("nw", NW(cat_of(lc.st, acc(lc))) == cc(NW(b), FN_N(lc.i))),
-                     ("sq", lead_of(lc.st, acc(lc)) == cc(lead_str(b), FN_S(lc.i)))])
+        (_n0, c0, l0), (_n1, c1, l1) = grown(lc)
+        return Conj([("nw", NW(c1) == cc(NW(c0), FN_N(lc.i))), ("sq", l1 == cc(l0, FN_S(lc.i)))])
 
     def i_inv(lc):
-        b = base(lc, lc.st)
-        nf = z3.Int("self.formulas.len")
-        return Conj([("nw", NW(cat_of(lc.st, acc(lc))) == cc(NW(b), FN_N(nf), IN_N(lc.i))),
-                     ("sq", lead_of(lc.st, acc(lc)) == cc(lead_str(b), FN_S(nf), IN_S(lc.i)))])
+        (_n0, c0, l0), (_n1, c1, l1) = grown(lc)
+        return Conj([("nw", NW(c1) == cc(NW(c0), IN_N(lc.i))), ("sq", l1 == cc(l0, IN_S(lc.i)))])
 
     def gt_nw(c):
-        b, nf, ni, inc = base(c.args, c.entry), z3.Int("self.formulas.len"), z3.Int("self.images.len"), c.args["include_image_captions"].t
+        b, nf, ni, inc = base(c), z3.Int("self.formulas.len"), z3.Int("self.images.len"), sg(c, "include_image_captions").t
         return NW(c.result.t) == cc(NW(b), FN_N(nf), z3.If(inc, IN_N(ni), lit("")))
 
     def gt_sq(c):
-        b, nf, ni, inc = base(c.args, c.entry), z3.Int("self.formulas.len"), z3.Int("self.images.len"), c.args["include_image_captions"].t
+        b, nf, ni, inc = base(c), z3.Int("self.formulas.len"), z3.Int("self.images.len"), sg(c, "include_image_captions").t
         return sep_claim(SQ(c.result.t), cc(lead_str(b), FN_S(nf), z3.If(inc, IN_S(ni), lit(""))))
 
-    out.append(FnContract(
+    gt = FnContract(
         target=f"{DT}::PptxSlide.get_text",
-        params=[("self", p_obj("PptxSlide", {"base_text": p_str(), "formulas": p_objseq("PptxFormula", F_AT), "images": p_objseq("PptxImage", IM_AT),
-                                             "footer": p_str(), "text": p_str()})),
-                ("include_image_captions", Maker(lambda ex, st, name: VBool(z3.Bool(name)), desc="bool", default=lambda ex, st: VBool(False)))],
-        ensures=[("nw(result)==base+formulas(+captions)", gt_nw), ("sq(result)==base,formulas(,captions)-separated-by-whitespace", gt_sq)],
-        loops={0: LoopSpec(inv=f_inv, label="formulas"), 1: LoopSpec(inv=i_inv, label="images")},
+        params=[(sg.name["self"], Maker(lambda ex, st, name: p_obj("PptxSlide", {"base_text": p_str(), "formulas": p_objseq("PptxFormula", F_AT),
+                                                                                 "images": p_objseq("PptxImage", IM_AT), "footer": p_str(),
+                                                                                 "text": p_str()}).make(ex, st, "self"), desc="PptxSlide")),
+                (sg.name["include_image_captions"], Maker(lambda ex, st, name: VBool(z3.Bool(name)), desc="bool", default=lambda ex, st: VBool(False)))],
+        ensures=[need_loops("formulas", "images"), ("nw(result)==base+formulas(+captions)", X.robust(gt_nw)), ("sq(result)==base,formulas(,captions)-separated-by-whitespace", X.robust(gt_sq))],
         note="comments, footer and the comment-bearing field `text` do not occur in the specified text",
-    ))
+    )
+    gt.loop_match = lambda ex, st, node, it: (matched(ex, LoopSpec(inv=f_inv, label="formulas")) if isinstance(it, VSeq) and it.ekind == "PptxFormula"
+                                              else matched(ex, LoopSpec(inv=i_inv, label="images")) if isinstance(it, VSeq) and it.ekind == "PptxImage" else None)
+    out.append(gt)
 
     # ---- DocContent.get_full_text: the documented title line ------------------------------------
     UNITS = z3.Const("doc.joined_unit_text", S)
@@ -618,50 +876,82 @@ define(PN, _pn_def)
 define(PN_KIDS, _pn_kids_def)
 
 
+def feeds_text_list(ex, st, node):
+    """The loop body appends to / extends a str list that exists before the loop (it accumulates text)."""
+    import ast
+    for sub in ast.walk(node):
+        tgt = None
+        if isinstance(sub, ast.Call) and isinstance(sub.func, ast.Attribute) and sub.func.attr in ("append", "extend") and isinstance(sub.func.value, ast.Name):
+            tgt = sub.func.value.id
+        elif isinstance(sub, ast.AugAssign) and isinstance(sub.target, ast.Name):
+            tgt = sub.target.id
+        if tgt is not None:
+            v = st.lookup(tgt)
+            if v is not None and _is_strlist(st, v):
+                return True
+    return False
+
+
+def children_of(it, node_v):
+    return isinstance(it, VSeq) and it.tag is not None and it.tag[0] == "hn.children" and isinstance(node_v, VExt) and it.tag[1].eq(node_v.t)
+
+
 def html_contracts(reg):
     reg.module_consts[(HTML, "_RE_WS")] = VExt("RegexWS")
     p_self = p_obj("_HtmlTextExtractor", {})
     p_flag = lambda dflt: Maker(lambda ex, st, name: VBool(z3.Bool(name)), desc="bool", default=lambda ex, st: VBool(dflt))
+    PNODE = find_fn(HTML, "_HtmlTextExtractor._process_node", mentions=["li", "BLOCK_TAGS", "REMOVE_TAGS"], nparams=4)
+    GNT = find_fn(HTML, "_HtmlTextExtractor._get_node_text", mentions=["text", "children", "tail", "join"], nparams=4, exclude=[PNODE])
+    sgn = Sig(HTML, GNT, ["self", "node", "include_children", "include_tail"])
 
     def gnt_inv(lc):
-        n = lc["node"].t
-        # `if node.get("text")` : an empty text contributes nothing either way
-        return Conj([("parts==text+texts-of-processed-children", cat_of(lc.st, acc(lc)) == cc(H_TEXT(n), HT_KIDS(n, lc.i)))])
+        n = lc.seq.tag[1]
+        (_n0, c0, _l0), (_n1, c1, _l1) = grown(lc)
+        return Conj([("parts==text+texts-of-processed-children", c1 == cc(c0, HT_KIDS(n, lc.i)))])
 
-    gnt = FnContract(
-        target=f"{HTML}::_HtmlTextExtractor._get_node_text",
-        params=[("self", p_self), ("node", p_hnode()), ("include_children", p_flag(True)), ("include_tail", p_flag(False))],
-        returns=lambda c: VStr(cc(z3.If(c.args["include_children"].t, HT(c.args["node"].t), H_TEXT(c.args["node"].t)),
-                                  z3.If(c.args["include_tail"].t, H_TAIL(c.args["node"].t), lit("")))),
-        loops={0: LoopSpec(inv=gnt_inv, label="children")},
+    gnt = under(
+        HTML, "_HtmlTextExtractor._get_node_text", GNT,
+        params=sgn.params({"self": p_self, "node": p_hnode(), "include_children": p_flag(True), "include_tail": p_flag(False)}),
+        returns=lambda c: VStr(cc(z3.If(sgn(c, "include_children").t, HT(sgn(c, "node").t), H_TEXT(sgn(c, "node").t)),
+                                  z3.If(sgn(c, "include_tail").t, H_TAIL(sgn(c, "node").t), lit("")))),
+        ensures=[need_loops("children")],
     )
+    gnt.loop_match = lambda ex, st, node, it: (matched(ex, LoopSpec(inv=gnt_inv, label="children"))
+                                               if children_of(it, st.frames[0].env.get(sgn.name["node"])) else None)
     extract_table = FnContract(target=f"{HTML}::_HtmlTextExtractor._extract_table", params=[("self", p_self), ("table_node", p_hnode())],
                                assumed=True, returns=lambda c: VExt("HtmlTableData", TD_OF(c.args["table_node"].t)),
                                note="table content: BOUNDED check html.extract (replay/C02.py)")
     format_table = FnContract(target=f"{HTML}::_HtmlTextExtractor._format_table_as_text",
                               params=[("self", p_self), ("table_data", Maker(lambda ex, st, n: VExt("HtmlTableData"), desc="table data"))],
                               assumed=True, returns=lambda c: VStr(TD_TEXT(c.args["table_data"].t)), note="BOUNDED check html.extract")
+    spn = Sig(HTML, PNODE, ["self", "node", "depth", "include_tail"])
 
-    def pn_inv(var):
-        def inv(lc):
-            n = lc["node"].t
-            return Conj([("nw", NW(cat_of(lc.st, acc(lc))) == cc(NW(H_TEXT(n)), PN_KIDS(n, lc.i)))])
-        return inv
+    def pn_inv(lc):
+        n = lc.seq.tag[1]
+        (_n0, c0, _l0), (_n1, c1, _l1) = grown(lc)
+        return Conj([("nw", NW(c1) == cc(NW(c0), PN_KIDS(n, lc.i)))])
 
-    pn = FnContract(
-        target=f"{HTML}::_HtmlTextExtractor._process_node",
-        params=[("self", p_obj("_HtmlTextExtractor", {"tables": Maker(lambda ex, st, n: VUnk(n), desc="list")})), ("node", p_hnode()),
-                ("depth", Maker(lambda ex, st, name: VInt(z3.Int(name)), desc="int", default=lambda ex, st: VInt(0))),
-                ("include_tail", p_flag(False))],
-        requires=lambda c: z3.Not(tag_in(H_TAG(c.args["node"].t), H_REMOVE)),
-        ensures=[("nw(result)==rendered(node)(+tail)",
-                  lambda c: NW(c.result.t) == cc(PN(c.args["node"].t), z3.If(c.args["include_tail"].t, NW(H_TAIL(c.args["node"].t)), lit(""))))],
+    pn = under(
+        HTML, "_HtmlTextExtractor._process_node", PNODE,
+        params=spn.params({"self": p_obj("_HtmlTextExtractor", {"tables": Maker(lambda ex, st, n: VUnk(n), desc="list")}), "node": p_hnode(),
+                           "depth": Maker(lambda ex, st, name: VInt(z3.Int(name)), desc="int", default=lambda ex, st: VInt(0)),
+                           "include_tail": p_flag(False)}),
+        requires=lambda c: z3.Not(tag_in(H_TAG(spn(c, "node").t), H_REMOVE)),
+        ensures=[need_loops("li-children", "children"), ("nw(result)==rendered(node)(+tail)",
+                  X.robust(lambda c: NW(c.result.t) == cc(PN(spn(c, "node").t), z3.If(spn(c, "include_tail").t, NW(H_TAIL(spn(c, "node").t)), lit("")))))],
         result_maker=lambda ex, st, ctx: VStr(z3.String(fresh_name("rendered"))),
         raises=[Raises("Exception", sub=True)],
-        modifies=("self",),
-        loops={0: LoopSpec(inv=pn_inv(None), label="li-children"), 1: LoopSpec(inv=pn_inv(None), label="children")},
+        modifies=(spn.name["self"],),
         note="requires: the node is not of a removed tag (class invariant of the tree the builder makes, C17)",
     )
+
+    def pn_loops(ex, st, node, it):
+        nv = st.frames[0].env.get(spn.name["node"])
+        if not children_of(it, nv):
+            return None
+        is_li = not ex.feasible(st.pc, H_TAG(nv.t) != lit("li"))
+        return matched(ex, LoopSpec(inv=pn_inv, label="li-children" if is_li else "children"))
+    pn.loop_match = pn_loops
     return [gnt, extract_table, format_table, pn]
 
 
@@ -689,32 +979,50 @@ define(GRID_NW, lambda h, k: prefix_def(GRID_NW(h, k), k, cc(GRID_NW(h, z3.simpl
 
 
 def xls_contracts():
-    def the_row(lc):
-        params = {p[0] for p in lc.ex.contract.params}
-        rows = [v for k, v in lc.st.frame.env.items() if k not in params and isinstance(v, VExt) and v.sort == "StrRow"]
-        if len({str(v.t) for v in rows}) != 1:
-            raise X.Unsupported("current row not identified")
-        return rows[0].t
+    FMT = find_fn(XLS, "_format_sheet_as_text", mentions=["rjust", "join"], nparams=2)
+    sx = Sig(XLS, FMT, ["headers", "rows"])
+
+    def row_of(seq):
+        """The row a cell loop runs over: `for v in row` / `for i, v in enumerate(row)`."""
+        if isinstance(seq, VExt) and seq.sort == "StrRow":
+            return seq.t
+        if isinstance(seq, VSeq) and seq.tag is not None and seq.tag[-2] == "row.cells":
+            return seq.tag[-1]
+        return None
 
     def outer_inv(lc):
-        return Conj([("nw", NW(cat_of(lc.st, acc(lc, pick="outer"))) == GRID_NW(lc["headers"].t, lc.i))])
+        (_n0, c0, _l0), (_n1, c1, _l1) = grown(lc)
+        return Conj([("nw", NW(c1) == cc(NW(c0), GRID_NW(top(lc, sx.name["headers"]).t, lc.i)))])
 
     def inner_inv(lc):
-        return Conj([("nw", NW(cat_of(lc.st, acc(lc))) == ROW_NW(the_row(lc), lc.i))])
+        (_n0, c0, _l0), (_n1, c1, _l1) = grown(lc)
+        return Conj([("nw", NW(c1) == cc(NW(c0), ROW_NW(row_of(lc.seq), lc.i)))])
 
     def post(c):
-        h = c.args["headers"].t
-        n = z3.Int("rows.len")
+        h = sx(c, "headers").t
+        n = z3.Int(f"{sx.name['rows']}.len")
         return NW(c.result.t) == GRID_NW(h, z3.If(RLEN(h) > 0, n + 1, n))
 
-    return [FnContract(
-        target=f"{XLS}::_format_sheet_as_text",
-        params=[("headers", X.p_strrow()), ("rows", X.p_rowseq(ROWS_AT))],
-        ensures=[("nw(result)==row-major-nw-of-cells", post)],
+    fmt = under(
+        XLS, "_format_sheet_as_text", FMT,
+        params=sx.params({"headers": X.p_strrow(), "rows": X.p_rowseq(ROWS_AT)}),
+        ensures=[need_loops("rows", "cells"), ("nw(result)==row-major-nw-of-cells", X.robust(post))],
         raises=[Raises("Exception", sub=True)],
-        loops={2: LoopSpec(inv=outer_inv, label="rows"), 3: LoopSpec(inv=inner_inv, label="cells")},
-        note="column widths are irrelevant to nw (rjust is whitespace): the width pass (loops 0, 1) is cut with invariant True",
-    )]
+        note="column widths are irrelevant to nw (rjust is whitespace): loops that do not feed a text list (the width pass) are cut with invariant True",
+    )
+
+    def loops(ex, st, node, it):
+        if not feeds_text_list(ex, st, node):
+            return None
+        if row_of(it) is not None:
+            return matched(ex, LoopSpec(inv=inner_inv, label="cells"))
+        if isinstance(it, VSeq) and it.ekind == "StrRow":
+            return matched(ex, LoopSpec(inv=outer_inv, label="rows"))
+        return None
+    fmt.loop_match = loops
+    return [fmt]
+
+
 
 
 # =====================================================================================
@@ -771,11 +1079,11 @@ def builder_contracts(reg):
     out = []
     for name, extra in (("handle_starttag", [("tag", P_STR), ("attrs", P_ATTRS)]), ("handle_endtag", [("tag", P_STR)]),
                         ("handle_data", [("data", P_STR)]), ("handle_comment", [("data", P_STR)])):
-        ens = [("inside-removed-markup-tree-and-insertion-point-untouched", untouched)]
+        ens = [("inside-removed-markup-tree-and-insertion-point-untouched", X.robust(untouched))]
         if name == "handle_data":
-            ens.append(("visible-data-appended-at-the-insertion-point", at_insertion_point))
+            ens.append(("visible-data-appended-at-the-insertion-point", X.robust(at_insertion_point)))
         if name == "handle_comment":
-            ens = [("comments-change-nothing", lambda c: C.frame(c, ()))]
+            ens = [("comments-change-nothing", X.robust(lambda c: C.frame(c, ())))]
         out.append(FnContract(target=f"{HTML}::_HtmlTreeBuilder.{name}", params=[("self", C.html_self())] + extra, requires=req,
                               ensures=ens, modifies=("self",)))
 
@@ -787,7 +1095,7 @@ def builder_contracts(reg):
         return z3.Implies(sd.t > 0, C.frame(c, C.skip_fields(C.EPUB, C.ECLS, c.ex.module.repo)))
     for name, extra in (("handle_starttag", [("tag", P_STR), ("attrs", P_ATTRS)]), ("handle_endtag", [("tag", P_STR)]), ("handle_data", [("data", P_STR)])):
         out.append(FnContract(target=f"{C.EPUB}::{C.ECLS}.{name}", params=[("self", C.epub_self())] + extra,
-                              ensures=[("inside-removed-markup-text-sinks-and-layout-state-untouched", e_untouched)], modifies=("self",)))
+                              ensures=[("inside-removed-markup-text-sinks-and-layout-state-untouched", X.robust(e_untouched))], modifies=("self",)))
     return out
 
 
@@ -809,23 +1117,46 @@ IS_SKIP = z3.Function("rtf.is_skip_destination", S, B)
 def rtf_contracts():
     unk = lambda: Maker(lambda ex, st, n: VUnk(n), desc="any")
     p_self = p_obj("_RtfParser", {"pages": unk(), "SPECIAL_CHARS": unk(), "SKIP_DESTINATIONS": unk()})
-    isskip = FnContract(target=f"{RTF}::_RtfParser._is_skip_destination", params=[("self", p_self), ("ahead", p_str())], assumed=True,
-                        returns=lambda c: VBool(IS_SKIP(c.args["ahead"].t)), note="which control words are destinations is a table (uninterpreted here)")
+    ISSKIP = find_fn(RTF, "_RtfParser._is_skip_destination", mentions=["SKIP_DESTINATIONS", "startswith"], nparams=2)
+    WALK = find_fn(RTF, "_RtfParser._strip_rtf_full_with_pages", mentions=["SPECIAL_CHARS", "pages"], calls=[ISSKIP], nparams=2)
+    sk_ = Sig(RTF, ISSKIP, ["self", "ahead"])
+    isskip = FnContract(target=f"{RTF}::{ISSKIP}", params=sk_.params({"self": p_self, "ahead": p_str()}), assumed=True,
+                        returns=lambda c: VBool(IS_SKIP(sk_(c, "ahead").t)), note="which control words are destinations is a table (uninterpreted here)")
+
+    def roles():
+        """The walker's state variables, found by what they do, not by name: in the branch guarded by the
+        `_is_skip_destination(...)` test a flag is set to True and the skip depth is set to the group depth; the output
+        lists are the str lists the character loop appends to."""
+        import ast
+        from pyvc import loader
+        fn = loader.module(RTF).functions.get(WALK)
+        if fn is None:
+            raise X.Unsupported("walker not found")
+        for n in ast.walk(fn):
+            if isinstance(n, ast.If) and any(isinstance(x, ast.Call) and isinstance(x.func, ast.Attribute) and x.func.attr == ISSKIP.rsplit(".", 1)[-1]
+                                             for x in ast.walk(n.test)):
+                flag = [x.targets[0].id for x in n.body if isinstance(x, ast.Assign) and isinstance(x.targets[0], ast.Name)
+                        and isinstance(x.value, ast.Constant) and x.value.value is True]
+                dep = [(x.targets[0].id, x.value.id) for x in n.body if isinstance(x, ast.Assign) and isinstance(x.targets[0], ast.Name)
+                       and isinstance(x.value, ast.Name)]
+                if len(flag) == 1 and len(dep) == 1:
+                    return flag[0], dep[0][0], dep[0][1]
+        raise X.Unsupported("walker state variables not recognised")
 
     def vars_(lc):
-        g, on, d = lc["group_depth"], lc["skip_group"], lc["skip_depth"]
+        on_n, d_n, g_n = roles()
+        g, on, d = lc[g_n], lc[on_n], lc[d_n]
         if not (isinstance(g, VInt) and isinstance(on, VBool) and isinstance(d, VInt)):
             raise X.Unsupported("walker state variables not of the expected kinds")
         from pyvc import ops
         return ops.int_term(g), on.t, ops.int_term(d)
 
     def outs(lc):
-        r = []
-        for nm in ("result", "current_page"):
-            v = lc.st.lookup(nm)
-            n_, c_, _l = _sl(lc.st, v)
-            r.append((n_, c_))
-        return r
+        fr = lc.st.frames[0]
+        refs = sorted({v.ref for v in fr.env.values() if _is_strlist(lc.st, v)})
+        if not refs:
+            raise X.Unsupported("output lists not recognised")
+        return [_sl(lc.st, VRef(r))[:2] for r in refs]
 
     def step(a, b):
         g0, on0, d0 = vars_(a)
@@ -840,27 +1171,41 @@ def rtf_contracts():
                         result_maker=lambda ex, st, ctx: VStr(z3.String(fresh_name("decoded"))), note="\\uN decoding: some string (C04 decides which)")
     spec = LoopSpec(label="characters")
     spec.step = step
-    walker = FnContract(
-        target=f"{RTF}::_RtfParser._strip_rtf_full_with_pages",
-        params=[("self", p_self), ("text", p_str())],
+    sw = Sig(RTF, WALK, ["self", "text"])
+    walker = under(
+        RTF, "_RtfParser._strip_rtf_full_with_pages", WALK,
+        params=sw.params({"self": p_self, "text": p_str()}),
+        ensures=[need_loops("characters")],
         raises=[Raises("Exception", sub=True)],
-        modifies=("self",),
-        loops={0: spec},
-        note="names the three state variables of the walker (group_depth, skip_group, skip_depth) and its two output lists",
+        modifies=(sw.name["self"],),
+        note="the three state variables of the walker and its output lists are identified by role (see roles())",
     )
+
+    def walker_loops(ex, st, node, it):
+        import ast
+        if isinstance(node, ast.While) and any(isinstance(x, ast.Call) and isinstance(x.func, ast.Attribute) and x.func.attr == ISSKIP.rsplit(".", 1)[-1]
+                                               for x in ast.walk(node)):
+            return matched(ex, spec)
+        return None
+    walker.loop_match = walker_loops
     return [isskip, decode, walker]
 
 
 def contracts(reg):
     X.install(reg)
+    X.register_untrusted()
     out = []
-    out += odf_contracts()
+    out += odf_contracts(reg)
     out += docx_contracts()
     out += dt_contracts(reg)
     out += html_contracts(reg)
     out += xls_contracts()
     out += builder_contracts(reg)
     out += rtf_contracts()
+    for c_ in out:
+        for _l, f_ in c_.ensures:
+            if getattr(f_, "needs_owner", False):
+                f_.owner = c_
     return out
 
 
@@ -1005,13 +1350,37 @@ def _ob(oid, ok, checked, witness, kind="bounded"):
             "loc": "replay/C02.py"}
 
 
+def _native_cache(pid):
+    import os
+    root = os.path.dirname(os.path.dirname(os.path.abspath(__file__)))
+    return os.path.join(root, "out", f"c02_native_{pid}.json")
+
+
 def bounded_native(repo, tier):
     res = run_native(repo, "bounded")
+    try:            # the known-findings hook of the same ./check run (our parent process) replays the same witnesses: hand the results over
+        import json
+        import os
+        os.makedirs(os.path.dirname(_native_cache(0)), exist_ok=True)
+        with open(_native_cache(os.getppid()), "w") as fh:
+            json.dump({"repo": repo, "res": res}, fh)
+    except OSError:
+        pass
     obls, errors = [], []
     for check, fn in FUNC_OF_CHECK.items():
         for case, r in res.get(check, {}).items():
             if case == "<error>":
                 errors.append({"function": fn, "error": r.get("error", "")[-600:]})
+                continue
+            if case == "<unresolved>":
+                # the function this stand-in exercises is gone (renamed / restructured): its obligations are undecided, not dropped
+                import json
+                import os
+                lock = json.load(open(os.path.join(os.path.dirname(os.path.dirname(os.path.abspath(__file__))), "obligations.lock.json"))).get("C02", {})
+                for oid in lock:
+                    if oid.startswith(f"C02/{fn}/bounded#"):
+                        obls.append({"id": oid, "kind": "bounded", "status": "unknown", "vcs": 0, "seconds": 0.0, "backends": {"native-small-scope": 1},
+                                     "witness": None, "reason": "UNKNOWN-SHAPE: " + r.get("error", ""), "loc": "replay/C02.py", "bounded": True})
                 continue
             obls.append(_ob(f"C02/{fn}/bounded#tokens[{case}]", r["failures"] == 0, r["checked"], r["witness"]))
     for fmt, feats in res.get("documents", {}).items():
@@ -1048,38 +1417,95 @@ def _iter_p_loops(fnode):
     import ast
     out = []
     for n in ast.walk(fnode):
-        if isinstance(n, ast.For) and isinstance(n.iter, ast.Call) and isinstance(n.iter.func, ast.Attribute) and n.iter.func.attr == "iter" \
-                and len(n.iter.args) == 1 and ast.unparse(n.iter.args[0]) == "_TEXT_P_TAG" and isinstance(n.target, ast.Name):
+        if isinstance(n, ast.For) and isinstance(n.iter, ast.Call) and isinstance(n.iter.func, ast.Attribute) and n.iter.func.attr in ("iter", "findall", "iterfind") \
+                and len(n.iter.args) >= 1 and isinstance(n.target, ast.Name):
             stores = {ast.unparse(x.func.value) for x in ast.walk(n) if isinstance(x, ast.Call) and isinstance(x.func, ast.Attribute) and x.func.attr == "append"}
             stores |= {ast.unparse(t) for x in ast.walk(n) if isinstance(x, ast.Assign) for t in x.targets if isinstance(t, ast.Attribute)}
             out.append((n, stores))
     return out
 
 
-def fragment_obligations(repo, tier):
+ODP_BLOCK_IDS = ["slide-text.visible-paragraph-stored-exactly-once", "slide-text.comment-or-blank-paragraph-stored-nowhere", "slide-text.notes-untouched",
+                 "slide-text.found_title<=>title-set", "speaker-notes.speaker-notes-never-reach-the-slide-text"]
+PPTX_BLOCK_IDS = ["shape-text.visible-shape-text-enters-the-slide-text-exactly-once", "shape-text.footer-date-header-placeholders-stay-out"]
+
+
+def _unknown(prefix, labels, why, fn):
+    """The fragment was not recognised / not executable: its obligations are reported `unknown` under their usual ids (the
+    native replayer decides), never dropped and never refuted."""
+    return [{"id": prefix + l, "kind": "block", "status": "unknown", "vcs": 0, "seconds": 0.0, "backends": {"shape": 1}, "witness": None,
+             "reason": "UNKNOWN-SHAPE: " + why, "loc": fn, "function": fn} for l in labels]
+
+
+def _flag_names(loop):
     import ast
-    from pyvc import loader, verify
+    return sorted({t.id for x in ast.walk(loop) if isinstance(x, ast.Assign) and isinstance(x.value, ast.Constant) and x.value.value is True
+                   for t in x.targets if isinstance(t, ast.Name)})
+
+
+def _idset_names(loop):
+    import ast
+    out = set()
+    for x in ast.walk(loop):
+        if isinstance(x, ast.Compare) and len(x.ops) == 1 and isinstance(x.ops[0], (ast.In, ast.NotIn)) and isinstance(x.comparators[0], ast.Name) \
+                and isinstance(x.left, ast.Call) and isinstance(x.left.func, ast.Name) and x.left.func.id == "id":
+            out.add(x.comparators[0].id)
+    return sorted(out)
+
+
+def fragment_obligations(repo, tier):
+    from pyvc import loader
     from pyvc.contracts import Registry
     from pyvc.exctypes import Universe
-    from pyvc.state import Frame, State, HeapObj
-    from pyvc.flow import ground_obligation
     obls, fns, undecided = [], [], []
-    mod = loader.module(ODP, repo)
-    fnode = mod.functions.get("_extract_slide")
-    if fnode is None:
-        return {"obligations": [], "undecided": [{"obligation": f"{ODP}::_extract_slide", "why": "contract-target-missing"}]}
-    loops = [(n, st) for n, st in _iter_p_loops(fnode) if any(x.startswith("slide.") for x in st)]
-    text_loops = [n for n, st in loops if not any("notes" in x for x in st)]
-    note_loops = [n for n, st in loops if any("notes" in x for x in st)]
-    pre = "C02/odp_extractor.py::_extract_slide/block#"
-    if len(text_loops) != 1 or len(note_loops) != 1:
-        return {"obligations": [ground_obligation(pre + "paragraph-loops-recognised", False, f"{len(text_loops)} text loop(s), {len(note_loops)} notes loop(s)",
-                                                  "odp_extractor.py", definite=False)]}
     reg = Registry()
     for c in contracts(reg):
         reg.add(c)
     uni = Universe(repo)
-    for kind, loop in (("slide-text", text_loops[0]), ("speaker-notes", note_loops[0])):
+    pre = "C02/odp_extractor.py::_extract_slide/block#"
+    try:
+        r1 = odp_fragment(repo, reg, uni, pre)
+    except Exception as e:  # noqa  (pack code met a shape it does not understand: undecided, not an engine error)
+        r1 = {"obligations": _unknown(pre, ODP_BLOCK_IDS, f"{type(e).__name__}: {e}", f"{ODP}::_extract_slide"), "functions": []}
+    pre2 = "C02/pptx_extractor.py::_process_slide_from_context/block#"
+    try:
+        r2 = pptx_fragment(repo, reg, uni, pre2)
+    except Exception as e:  # noqa
+        r2 = {"obligations": _unknown(pre2, PPTX_BLOCK_IDS, f"{type(e).__name__}: {e}", f"{PPTX}::_process_slide_from_context"), "functions": []}
+    for r, pfx, ids, fn in ((r1, pre, ODP_BLOCK_IDS, f"{ODP}::_extract_slide"), (r2, pre2, PPTX_BLOCK_IDS, f"{PPTX}::_process_slide_from_context")):
+        have = {o["id"] for o in r["obligations"]}
+        r["obligations"] += _unknown(pfx, [l for l in ids if pfx + l not in have], "fragment produced no verification condition for this clause", fn)
+        obls += r["obligations"]
+        fns += r.get("functions", [])
+    return {"obligations": obls, "functions": fns, "undecided": undecided}
+
+
+def odp_fragment(repo, reg, uni, pre):
+    import ast
+    from pyvc import loader, verify
+    from pyvc.state import Frame, State, HeapObj
+    fq = f"{ODP}::_extract_slide"
+    mod = loader.module(ODP, repo)
+    fname = find_fn(ODP, "_extract_slide", mentions=["body_text", "other_text", "notes"], nparams=4)
+    fnode = mod.functions.get(fname)
+    if fnode is None:
+        return {"obligations": _unknown(pre, ODP_BLOCK_IDS, "function not found", fq)}
+    loops = _iter_p_loops(fnode)
+    loops = [(n, st) for n, st in loops if not any(m is not n and m in list(ast.walk(n)) for m, _s in loops)]      # innermost only
+    owners = lambda stores: {x.split(".")[0] for x in stores if "." in x and x.split(".", 1)[1] in ("body_text", "other_text", "title", "notes")}
+    text_loops = [(n, owners(st)) for n, st in loops if any(x.endswith((".body_text", ".other_text", ".title")) for x in st)]
+    note_loops = [(n, owners(st)) for n, st in loops if any(x.endswith(".notes") for x in st) and not any(x.endswith((".body_text", ".other_text", ".title")) for x in st)]
+    if len(text_loops) != 1 or len(note_loops) != 1 or len(text_loops[0][1]) != 1:
+        return {"obligations": _unknown(pre, ODP_BLOCK_IDS, f"{len(text_loops)} text loop(s), {len(note_loops)} notes loop(s)", fq)}
+    slide_name = next(iter(text_loops[0][1]))
+    obls = []
+    for kind, loop in (("slide-text", text_loops[0][0]), ("speaker-notes", note_loops[0][0])):
+        labels = [l for l in ODP_BLOCK_IDS if l.startswith(kind + ".")]
+        flags = _flag_names(loop)
+        if kind == "slide-text" and len(flags) != 1:
+            obls += _unknown(pre, labels, f"title flag not recognised ({flags})", fq)
+            continue
+        flag_name = flags[0] if flags else None
         ex = EXECUTOR(mod, reg, uni)
         ex.oid_prefix = "C02/odp_extractor.py::_extract_slide"
         st = State()
@@ -1094,20 +1520,19 @@ def fragment_obligations(repo, tier):
         slide = VRef(st.alloc(HeapObj("obj", {"title": VStr(title), "body_text": lists["body_text"][0], "other_text": lists["other_text"][0],
                                               "notes": lists["notes"][0]}, "OdpSlide", False), ex.refs))
         ids = VExt("IdSet", z3.Const("comment_paragraphs", X.IDSET))
-        env = {loop.target.id: VExt("Elem", p), "slide": slide, "found_title": VBool(found)}
-        # any set of identities the enclosing code computed (the comment paragraphs)
-        for nm in {x.id for x in ast.walk(loop) if isinstance(x, ast.Name) and isinstance(x.ctx, ast.Load)}:
-            if "comment" in nm and nm not in env:
-                env[nm] = ids
+        env = {loop.target.id: VExt("Elem", p), slide_name: slide}
+        if flag_name:
+            env[flag_name] = VBool(found)
+        for nm in _idset_names(loop):           # the set of identities the enclosing code computed (comment paragraphs)
+            env.setdefault(nm, ids)
         st.frames = [Frame(env, None, fnode)]
         st.assume(found == (title != lit("")))
-        entry = st.fork()
         ex.cur_fn_stack.append(fnode)
         ex.sinks.append([])
         try:
             outs = ex.exec_block(loop.body, st)
         except X.Unsupported as e:
-            undecided.append({"obligation": pre + kind, "why": "OUT-OF-SUBSET " + str(e)})
+            obls += _unknown(pre, labels, "OUT-OF-SUBSET " + str(e), fq)
             continue
         finally:
             ex.sinks.pop()
@@ -1117,18 +1542,22 @@ def fragment_obligations(repo, tier):
         for o in outs:
             if o.kind not in ("fall", "continue"):
                 continue
-            d = o.st.obj(slide.ref).data
-            t1 = d["title"].t if isinstance(d["title"], VStr) else None
-            f1 = o.st.lookup("found_title")
-
-            def lst(f):
-                n1, c1, _l = _sl(o.st, d[f]) if isinstance(d[f], VRef) else (None, None, None)
-                return n1, c1
-            same = lambda f: z3.And(lst(f)[0] == lists[f][1], lst(f)[1] == lists[f][2]) if lst(f)[0] is not None else z3.BoolVal(False)
-            grew = lambda f: z3.And(lst(f)[0] == lists[f][1] + 1, lst(f)[1] == cc(lists[f][2], text)) if lst(f)[0] is not None else z3.BoolVal(False)
-            t_same = (t1 == title) if t1 is not None else z3.BoolVal(False)
+            ho = o.st.heap.get(slide.ref)
+            d = ho.data if ho is not None and ho.kind == "obj" and ho.data is not None else {}
+            t1 = d["title"].t if isinstance(d.get("title"), VStr) else None
+            f1 = o.st.lookup(flag_name) if flag_name else None
+            shape_ok = t1 is not None and all(isinstance(d.get(f), VRef) and _is_strlist(o.st, d[f]) for f in lists) and (kind != "slide-text" or isinstance(f1, VBool))
+            if not shape_ok:
+                o.st.assume(X.ABSTRACTED)          # the slide object is not in a shape the clauses can read: undecided, not refuted
+                for label in labels:
+                    ex.add_vc("block", label, o.st.pc, z3.BoolVal(False), loc=f"{ODP}:{loop.lineno}")
+                continue
+            lst = lambda f: _sl(o.st, d[f])[:2]
+            same = lambda f: z3.And(lst(f)[0] == lists[f][1], lst(f)[1] == lists[f][2])
+            grew = lambda f: z3.And(lst(f)[0] == lists[f][1] + 1, lst(f)[1] == cc(lists[f][2], text))
+            t_same = t1 == title
             if kind == "slide-text":
-                once = z3.Or(z3.And(t1 == text, z3.Not(found), same("body_text"), same("other_text")) if t1 is not None else z3.BoolVal(False),
+                once = z3.Or(z3.And(t1 == text, z3.Not(found), same("body_text"), same("other_text")),
                              z3.And(t_same, grew("body_text"), same("other_text")),
                              z3.And(t_same, same("body_text"), grew("other_text")))
                 nothing = z3.And(t_same, same("body_text"), same("other_text"))
@@ -1136,19 +1565,14 @@ def fragment_obligations(repo, tier):
                 goals = [("visible-paragraph-stored-exactly-once", z3.Implies(z3.Not(hidden), once)),
                          ("comment-or-blank-paragraph-stored-nowhere", z3.Implies(hidden, nothing)),
                          ("notes-untouched", same("notes")),
-                         ("found_title<=>title-set", (f1.t == (t1 != lit(""))) if isinstance(f1, VBool) and t1 is not None else z3.BoolVal(False))]
+                         ("found_title<=>title-set", f1.t == (t1 != lit("")))]
             else:
                 goals = [("speaker-notes-never-reach-the-slide-text", z3.And(t_same, same("body_text"), same("other_text")))]
             for label, g in goals:
                 ex.add_vc("block", f"{kind}.{label}", o.st.pc, g, loc=f"{ODP}:{loop.lineno}")
         for ob in ex.obls.values():
-            obls.append(dict(verify.discharge(ob, None, {}), function=f"{ODP}::_extract_slide"))
-    fns.append(dict(mod.fn_info("_extract_slide"), obligations=len(obls)))
-    r2 = pptx_fragment(repo, reg, uni)
-    obls += r2["obligations"]
-    fns += r2["functions"]
-    undecided += r2["undecided"]
-    return {"obligations": obls, "functions": fns, "undecided": undecided}
+            obls.append(dict(verify.discharge(ob, None, {}), function=fq))
+    return {"obligations": obls, "functions": [dict(mod.fn_info(fname), obligations=len(obls))]}
 
 
 # pptx_extractor._process_slide_from_context, placeholder classification of a shape's text.  Statement: the text of every
@@ -1158,23 +1582,52 @@ PPTX = "sharepoint2text/parsing/extractors/ms_modern/pptx_extractor.py"
 PPTX_EXCLUDED_PH = ["ftr", "dt", "hdr", "sldImg"]
 
 
-def pptx_fragment(repo, reg, uni):
+def pptx_fragment(repo, reg, uni, pre):
     import ast
+    import builtins
     from pyvc import loader, verify
     from pyvc.state import Frame, State, HeapObj
-    from pyvc.flow import ground_obligation
-    pre = "C02/pptx_extractor.py::_process_slide_from_context/block#"
+    fq = f"{PPTX}::_process_slide_from_context"
     mod = loader.module(PPTX, repo)
-    fnode = mod.functions.get("_process_slide_from_context")
+    fname = find_fn(PPTX, "_process_slide_from_context", mentions=["TITLE_TYPES", "FOOTER_TYPES"], nparams=3)
+    fnode = mod.functions.get(fname)
     if fnode is None:
-        return {"obligations": [], "functions": [], "undecided": [{"obligation": f"{PPTX}::_process_slide_from_context", "why": "contract-target-missing"}]}
-    cands = [n for n in ast.walk(fnode) if isinstance(n, ast.If) and ast.unparse(n.test) == "ph is not None"
-             and any(isinstance(x, ast.Name) and x.id == "TITLE_TYPES" for x in ast.walk(n))]
-    if len(cands) != 1:
-        return {"obligations": [ground_obligation(pre + "classification-recognised", False, f"{len(cands)} candidate statement(s)", "pptx_extractor.py", definite=False)],
-                "functions": [], "undecided": []}
-    stmt = cands[0]
-    obls, undecided = [], []
+        return {"obligations": _unknown(pre, PPTX_BLOCK_IDS, "function not found", fq)}
+
+    def none_test(t):
+        return isinstance(t, ast.Compare) and len(t.ops) == 1 and isinstance(t.ops[0], (ast.Is, ast.IsNot)) and isinstance(t.left, ast.Name) \
+            and isinstance(t.comparators[0], ast.Constant) and t.comparators[0].value is None
+    # the fragment: inside the loop over shapes, everything from the first statement that consults the placeholder-type
+    # tables to the end of the loop body (the classification may be one if-chain or a classify-then-store sequence)
+    mentions = lambda n: any(isinstance(x, ast.Name) and x.id == "TITLE_TYPES" for x in ast.walk(n))
+    bodies = [l.body for l in ast.walk(fnode) if isinstance(l, (ast.For, ast.While)) and any(mentions(x) for x in l.body)]
+    if len(bodies) != 1:
+        return {"obligations": _unknown(pre, PPTX_BLOCK_IDS, "placeholder classification not recognised", fq)}
+    first = next(i for i, x in enumerate(bodies[0]) if mentions(x))
+    block = bodies[0][first:]
+    stmt = ast.Module(body=block, type_ignores=[])
+    stmt.lineno = block[0].lineno
+    tests = [x for x in ast.walk(stmt) if none_test(x)]
+    gets = {x.func.value.id for x in ast.walk(stmt) if isinstance(x, ast.Call) and isinstance(x.func, ast.Attribute) and x.func.attr == "get"
+            and isinstance(x.func.value, ast.Name)}
+    ph_names = sorted({x.left.id for x in tests} & gets)          # the variable that is None-tested and read with .get(): the placeholder element
+    if len(ph_names) != 1:
+        return {"obligations": _unknown(pre, PPTX_BLOCK_IDS, f"placeholder variable not recognised ({ph_names})", fq)}
+    ph_name = ph_names[0]
+    appends = [x for x in ast.walk(stmt) if isinstance(x, ast.Call) and isinstance(x.func, ast.Attribute) and x.func.attr == "append"
+               and isinstance(x.func.value, ast.Name) and len(x.args) == 1]
+    tuple_lists = sorted({x.func.value.id for x in appends if isinstance(x.args[0], ast.Tuple)})
+    str_lists = sorted({x.func.value.id for x in appends if isinstance(x.args[0], ast.Name)})
+    text_names = sorted({x.args[0].id for x in appends if isinstance(x.args[0], ast.Name)}
+                        | {x.args[0].elts[-1].id for x in appends if isinstance(x.args[0], ast.Tuple) and x.args[0].elts and isinstance(x.args[0].elts[-1], ast.Name)})
+    if len(tuple_lists) != 1 or len(text_names) != 1:
+        return {"obligations": _unknown(pre, PPTX_BLOCK_IDS, f"roles not recognised: tuple lists {tuple_lists}, text {text_names}", fq)}
+    text_name, oc_name = text_names[0], tuple_lists[0]
+    stored = {t.id for x in ast.walk(stmt) if isinstance(x, (ast.Assign, ast.AnnAssign, ast.NamedExpr))
+              for t in (x.targets if isinstance(x, ast.Assign) else [x.target]) if isinstance(t, ast.Name)}
+    free = {x.id for x in ast.walk(stmt) if isinstance(x, ast.Name) and isinstance(x.ctx, ast.Load)} - {ph_name, text_name, oc_name} - set(str_lists)
+    free = {n for n in free if n not in mod.assigns and n not in mod.functions and n not in mod.classes and n not in mod.imports and not hasattr(builtins, n)}
+    obls = []
     ex = EXECUTOR(mod, reg, uni)
     ex.oid_prefix = "C02/pptx_extractor.py::_process_slide_from_context"
     for alt in ("placeholder", "no-placeholder"):
@@ -1182,46 +1635,47 @@ def pptx_fragment(repo, reg, uni):
         text = z3.String("text")
         st.assume(z3.Length(text) > 0)
         ph = z3.Const("ph", ELEM)
-        lists = {}
-        for f in ("content_placeholders", "other_textboxes"):
+        env = {ph_name: VExt("Elem", ph) if alt == "placeholder" else NONE, text_name: VStr(text)}
+        for f in str_lists:
             n, cat, lead = z3.Int(f"{f}.len"), z3.String(f"{f}.cat"), z3.String(f"{f}.lead")
             st.assume(X.slist_wf(n, cat, lead))
-            lists[f] = (X.mk_slist(ex, st, n, cat, lead, fresh=False), n, cat)
+            env[f] = X.mk_slist(ex, st, n, cat, lead, fresh=False)
         oc = VRef(st.alloc(HeapObj("list", [], None, False), ex.refs))
-        env = {"ph": VExt("Elem", ph) if alt == "placeholder" else NONE, "text": VStr(text), "position": VUnk("position"),
-               "slide_title": VStr(z3.String("slide_title")), "slide_footer": VStr(z3.String("slide_footer")),
-               "content_placeholders": lists["content_placeholders"][0], "other_textboxes": lists["other_textboxes"][0], "ordered_content": oc}
+        env[oc_name] = oc
+        for n in sorted(free):
+            env[n] = VStr(z3.String(n)) if n in stored else VUnk(n)
         st.frames = [Frame(env, None, fnode)]
         ex.cur_fn_stack.append(fnode)
         ex.sinks.append([])
         try:
-            outs = ex.exec_stmt(stmt, st)
+            outs = ex.exec_block(block, st)
         except X.Unsupported as e:
-            undecided.append({"obligation": pre + "shape-text", "why": "OUT-OF-SUBSET " + str(e)})
-            continue
+            return {"obligations": _unknown(pre, PPTX_BLOCK_IDS, "OUT-OF-SUBSET " + str(e), fq)}
         finally:
             ex.sinks.pop()
             ex.cur_fn_stack.pop()
         ptype = z3.If(ATTR_HAS(ph, lit("type")), ATTR(ph, lit("type")), lit(""))
         excluded = z3.BoolVal(False) if alt == "no-placeholder" else z3.Or([ptype == lit(k) for k in PPTX_EXCLUDED_PH])
         for o in outs:
-            if o.kind != "fall":
+            if o.kind not in ("fall", "continue"):
                 continue
-            items = o.st.obj(oc.ref).data
-            if items is None or len(items) > 1:
-                g_once, g_excl = z3.BoolVal(False), z3.BoolVal(False)
+            ho = o.st.heap.get(oc.ref)
+            items = ho.data if ho is not None and ho.kind == "list" else None
+            ok = items is not None and all(isinstance(it, VTuple) and it.items and isinstance(it.items[-1], VStr) for it in items)
+            if not ok:
+                o.st.assume(X.ABSTRACTED)
+                g_once = g_excl = z3.BoolVal(False)
             elif len(items) == 1:
-                it = items[0]
-                ok = isinstance(it, VTuple) and len(it.items) == 3 and isinstance(it.items[2], VStr)
-                g_once = (it.items[2].t == text) if ok else z3.BoolVal(False)
-                g_excl = z3.Not(excluded)
-            else:
+                g_once, g_excl = items[0].items[-1].t == text, z3.Not(excluded)
+            elif len(items) == 0:
                 g_once, g_excl = excluded, z3.BoolVal(True)
-            ex.add_vc("block", "shape-text.visible-shape-text-enters-the-slide-text-exactly-once", o.st.pc, g_once, loc=f"{PPTX}:{stmt.lineno}")
-            ex.add_vc("block", "shape-text.footer-date-header-placeholders-stay-out", o.st.pc, g_excl, loc=f"{PPTX}:{stmt.lineno}")
+            else:
+                g_once = g_excl = z3.BoolVal(False)
+            ex.add_vc("block", PPTX_BLOCK_IDS[0], o.st.pc, g_once, loc=f"{PPTX}:{stmt.lineno}")
+            ex.add_vc("block", PPTX_BLOCK_IDS[1], o.st.pc, g_excl, loc=f"{PPTX}:{stmt.lineno}")
     for ob in ex.obls.values():
-        obls.append(dict(verify.discharge(ob, None, {}), function=f"{PPTX}::_process_slide_from_context"))
-    return {"obligations": obls, "functions": [dict(mod.fn_info("_process_slide_from_context"), obligations=len(obls))], "undecided": undecided}
+        obls.append(dict(verify.discharge(ob, None, {}), function=fq))
+    return {"obligations": obls, "functions": [dict(mod.fn_info(fname), obligations=len(obls))]}
 
 
 EXTRA = [bounded_native, fragment_obligations]
@@ -1233,7 +1687,19 @@ def known_findings(kf, violations, repo, tier):
     vio_ids = {v["id"] for v in violations}
     out = []
     try:
-        res = run_native(repo, "bounded", "--with-witness-checks")
+        import json
+        import os
+        res = None
+        try:
+            with open(_native_cache(os.getpid())) as fh:
+                cached = json.load(fh)
+            os.unlink(_native_cache(os.getpid()))
+            if cached.get("repo") == repo:
+                res = cached["res"]          # produced seconds ago by this run's own EXTRA worker on the same tree
+        except (OSError, ValueError):
+            res = None
+        if res is None:
+            res = run_native(repo, "bounded", "--with-witness-checks")
     except Exception as e:  # noqa
         return [{"finding": f["id"], "still_fails": False, "line": f"{f['id']}: replay failed: {e}", "covers": []} for f in kf]
     for f in kf:
